@@ -13,6 +13,7 @@
    SOME top-L set in the query direction (ties are not ordered).  Executable definitions and
    statements only. *)
 From Coq Require Import List ZArith NArith QArith String Ascii Bool Permutation.
+From Coq Require Sorted.
 From Qryn Require Import lib.Strs model.Sql model.Logql model.LogqlRegexp model.LogqlPlan model.SqlEval.
 Import ListNotations.
 Open Scope string_scope.
@@ -379,6 +380,26 @@ Definition log_correct2 {RG : ReGroups} (re_match : string -> string -> bool) (p
     /\ eval re_match parse_float json_get hash_labels tie (to_sqldb c d) sel = Some rows
     /\ map row_out rows = map Some outs
     /\ logql_sem2 re_match parse_float json_get hash_labels q c d outs.
+
+(* Plan(script, false).Process(ctx): the SELECT whose rows feed the in-process engine when the pipeline has a stage that is
+   not planned in SQL (logql_transpiler_v2.Plan breaks the script in front of it and plans the prefix without LIMIT; the
+   limit is applied by the in-process LimitPlanner). Its rows are ALL the lines the prefix lets through, in timestamp order. *)
+Definition bp_select (q : strsel) (c : pctx) : option select :=
+  match plan_log q false with
+  | Some p => match process p c pst0 with Some (s, _, _) => Some s | None => None end
+  | None => None
+  end.
+Definition ts_sorted (asc : bool) (l : list outrow) : Prop :=
+  Sorted.StronglySorted (fun a b => if asc then (o_ts a <= o_ts b)%Z else (o_ts b <= o_ts a)%Z) l.
+Definition bp_correct2 {RG : ReGroups} (re_match : string -> string -> bool) (parse_float : string -> option Q)
+    (json_get : string -> list string -> string) (hash_labels : labels -> Z)
+    (tie : forall A : Type, list A -> list A) (q : strsel) (c : pctx) (d : database) : Prop :=
+  exists sel rows outs,
+    bp_select q c = Some sel
+    /\ eval re_match parse_float json_get hash_labels tie (to_sqldb c d) sel = Some rows
+    /\ map row_out rows = map Some outs
+    /\ Permutation outs (log_rows2 re_match parse_float json_get hash_labels q c d)
+    /\ ts_sorted (c_asc c) outs.
 
 (* C07 at full strength over the modelled fragment (false: see absent_guard) *)
 Definition log_sound_complete_stmt : Prop :=
